@@ -96,6 +96,21 @@ Section SubscribeExec.
     rewrite (map_nth_error _ _ _ Hk) in Hr. inversion Hr. reflexivity.
   Qed.
 
+  (* ... and for every history of __anext__ calls, not only a full drain *)
+  Theorem history_exec (j : nat) (s : sub_state cache pv error) :
+    inv (es_cache (ss_exec s)) ->
+    snd (pulls cache pv (outcome pv) error run_c j s) =
+      map Some (firstn j (map fresh_result (ss_source s))) ++ repeat None (j - length (ss_source s)) /\
+    ss_source (fst (pulls cache pv (outcome pv) error run_c j s)) = skipn j (ss_source s) /\
+    ss_consumed (fst (pulls cache pv (outcome pv) error run_c j s)) =
+      ss_consumed s + Nat.min j (length (ss_source s)).
+  Proof.
+    intros Hinv.
+    destruct (pulls_spec cache pv (outcome pv) error run_c empty_cache inv
+                run_c_keeps_inv run_c_cache_independent j s Hinv) as (A & B & C & _).
+    split; [|split; assumption]. rewrite A. do 3 f_equal. apply map_ext. exact spec_result_fresh.
+  Qed.
+
   (* the tables stay sound along the stream *)
   Theorem stream_keeps_tables_sound (s : sub_state cache pv error) :
     inv (es_cache (ss_exec s)) ->
